@@ -717,8 +717,9 @@ class Generator:
             a, b = [x.strip() for x in pair.split("=", 1)]
             at = a.replace(" ", "").split("::")
             q = it.kw
-            while q < it.body_open:
-                if all(q + 3 * k2 < it.body_open and s[q + 3 * k2].text == at[k2] for k2 in range(len(at))) \
+            sub_end = src.match[it.body_open] if it.body_open is not None and len(at) == 1 and at[0] != "Self" else it.body_open
+            while q < sub_end:
+                if all(q + 3 * k2 < sub_end and s[q + 3 * k2].text == at[k2] for k2 in range(len(at))) \
                         and all(src.is_p(q + 3 * k2 + 1, ":") and src.is_p(q + 3 * k2 + 2, ":") for k2 in range(len(at) - 1)):
                     ed.replace(s[q].start, s[q + 3 * (len(at) - 1)].end, b, 4)
                     rules["R3"] = rules.get("R3", 0) + 1
